@@ -12,6 +12,7 @@ RULE = ('Expressions, predicates, events, disjunctions (width 2-5), properties a
         'contains_reference for every name in the tree and one fresh name, contains_self_reference, '
         'contains_definition, aliases, check_some_self_references and iterate are compared with the walk. Non-trivial '
         '= tree with >= 2 references of different kinds; distinct = shape.')
+RULE_ADDED = ' Since the seeding rounds: contains_reference is also asked for names that do not occur but are spelled like ones that do (suffixes, prefixes, extensions, other case).'
 ASSUMPTIONS = ['sibling order of a pattern\'s trigger/behaviour in iterate() is not judged',
                'contains_reference(a) means "@a occurs anywhere", bound or free, as the statement says']
 FLOORS = {
@@ -73,6 +74,16 @@ def iterate_reference(root, flip_pattern=False):
     return out
 
 
+def fragments(names):
+    """names that do NOT occur but are spelled like ones that do: proper suffixes, prefixes, extensions; one fresh"""
+    out = ['Fresh_zz']
+    for n in sorted(names):
+        for f in (n[1:], n[-1:], n[:-1], n[:1], n + 'x', 'x' + n, n.lower(), n.upper()):
+            if f and f not in names and f not in out and (f[0].isalpha() or f[0] == '_'):
+                out.append(f)
+    return out[:12]
+
+
 def run(ctx):
     rng = ctx.rng
     B = BUDGET[ctx.tier]
@@ -93,7 +104,7 @@ def run(ctx):
             q(feats, 'external-references', {'input': text, 'expected': sorted(exp_free),
                                             'observed': sorted(got[1]) if got[0] == 'ok' else repr(got[1])})
         names = S.hpl_all_var_names(cond)
-        for a in sorted(names) + ['Fresh_zz']:
+        for a in sorted(names) + fragments(names):
             got = hplapi.outcome(h.contains_reference, a)
             nq += 1
             if got[0] != 'ok' or bool(got[1]) != (a in names):
@@ -244,7 +255,7 @@ def run(ctx):
             nq += 1
             if got[0] != 'ok' or bool(got[1]) != exp_self:
                 q(feats, 'contains-self-reference', {'input': text, 'position': name, 'expected': exp_self, 'observed': repr(got[1])})
-            for a in sorted(allnames) + ['Fresh_zz']:
+            for a in sorted(allnames) + fragments(allnames):
                 got = hplapi.outcome(h.contains_reference, a)
                 nq += 1
                 if got[0] != 'ok' or bool(got[1]) != (a in allnames):
